@@ -704,6 +704,8 @@ def run(ctx):
             ops = gen_seekback_wops(rng)
         elif i % 4 == 2:
             ops = steps_to_wops(gen_edge_steps(rng))
+        elif i % 8 == 1:
+            ops = gen_seek_wops(rng)
         else:
             ops = gen_wops(rng, rng.randrange(1, 9 if big else 14), big=big)
         obs, final = run_w(f0, ops)
@@ -985,6 +987,22 @@ def oracle(ctx):
         ctx.count(1, key=("edger", i), bucket="block-edge-read")
         for key, desc, observed, expected in edge_read_case(c):
             ctx.violation(key, {"edge_read": c}, desc, observed=observed, expected=expected)
+
+    # (g) writer op sequences with seek / flush / tell mid-byte against the bit-level reference; both readers on the file
+    for i in range(ctx.pick(2000, 30000)):
+        ops = gen_seek_wops(rng)
+        ctx.count(1, key=("seekw", i), bucket="writer-seek-reference")
+        for key, desc, observed, expected in seek_write_case(ops):
+            ctx.violation(key, {"seek_ops": _j(ops)}, desc, observed=observed, expected=expected)
+
+    # (h) exhaustive integer sweep: every v in -(2^14+2)..(2^14+2) and +-(2^k-2..2^k+2), k <= 200
+    import time as _time
+    t0 = _time.time()
+    sw = expgolomb_sweep()
+    ctx.count(2 * len(sweep_value_set()), key="sweep", bucket="integer-sweep")
+    ctx.extra["integer_sweep_s"] = round(_time.time() - t0, 2)
+    for key, inp, desc, observed, expected in sw:
+        ctx.violation(key, inp, desc, observed=observed, expected=expected)
 
 
 
@@ -1497,6 +1515,277 @@ def steps_to_dops(steps):
     return out
 
 
+# ------------------------------------------------------------------ reference writer (seek / flush / tell mid-byte)
+def ref_writer_run(ops):
+    """Bit-level statement of BitstreamWriter outside bounded blocks: bits are assembled MSB first into the byte at the
+    current offset; a byte reaches the file when it is complete, on flush() and on seek() whenever at least one bit of
+    it has been written (whatever the bit values); seek() restarts the target byte from zero at the given bit.
+    Returns (tell after each op as a bit offset, final file bytes after a last flush)."""
+    f, pos, nb, cur, tells = [], 0, 7, 0, []
+
+    def commit():
+        while len(f) < pos:
+            f.append(0)
+        if pos < len(f):
+            f[pos] = cur
+        else:
+            f.append(cur)
+
+    for op in ops:
+        if op[0] == "flush":
+            if nb != 7:
+                commit()
+        elif op[0] == "seek":
+            if nb != 7:
+                commit()
+            pos, nb, cur = op[1], op[2], 0
+        else:
+            for b in op_bits(op):
+                cur |= b << nb
+                nb -= 1
+                if nb < 0:
+                    commit()
+                    pos, nb, cur = pos + 1, 7, 0
+        tells.append(pos * 8 + 7 - nb)
+    if nb != 7:
+        commit()
+    return tells, f
+
+
+def gen_seek_wops(rng):
+    """writes, then seeks back over written bytes (mid-byte), partial overwrites with 0 bits / 1 bits / data, seeks and
+    flushes with a pending partial byte (also all-zero, also at the end of the file)"""
+    ops = []
+    for _ in range(rng.randrange(1, 6)):
+        k = rng.randrange(4)
+        if k == 0:
+            ops.append(("bytes", 1, [rng.choice([255, 255, rng.randrange(1, 256)])]))
+        elif k == 1:
+            n = rng.randrange(1, 20)
+            ops.append(("nbits", n, rng.choice([(1 << n) - 1, rng.randrange(1 << n)])))
+        elif k == 2:
+            ops.append(("sint", rng.randrange(-40, 40)))
+        else:
+            ops.append(("uint", rng.randrange(0, 70)))
+    size = sum(len(op_bits(o)) for o in ops) // 8 + 1
+    for _ in range(rng.randrange(1, 5)):
+        r = rng.random()
+        by = rng.randrange(0, size + 1) if r < 0.8 else size + rng.randrange(0, 2)
+        ops.append(("seek", by, rng.randrange(0, 8)))
+        style = rng.randrange(4)  # 0,1: zeros
+        n = rng.choice([rng.randrange(1, 8), rng.randrange(1, 8), rng.randrange(8, 20)])
+        if style < 2:
+            ops.append(rng.choice([("nbits", n, 0), ("bitarray", n, []), ("bitarray", n, [False] * n)]))
+        elif style == 2:
+            ops.append(("nbits", n, (1 << n) - 1))
+        else:
+            ops.append(rng.choice([("nbits", n, rng.randrange(1 << n)), ("sint", rng.randrange(-9, 9))]))
+        if rng.random() < 0.3:
+            ops.append(("flush",))
+        if rng.random() < 0.2:
+            ops.append(("nbits", rng.randrange(1, 5), 0))
+    if rng.random() < 0.5:
+        ops.append(("seek", rng.randrange(0, size + 2), rng.randrange(0, 8)))
+    return ops
+
+
+def seek_write_case(ops):
+    """real BitstreamWriter vs the reference on an op sequence with seeks; then both readers on the resulting file"""
+    bio, OutOfRangeError, eg, dio, UEOS_, State, bitarray = I()
+    tob = bio.to_bit_offset
+    ops = [tuple(o) for o in ops]
+    tells, ref = ref_writer_run(ops)
+    fails = []
+    f = io.BytesIO()
+    w = bio.BitstreamWriter(f)
+    try:
+        for i, (op, t) in enumerate(zip(ops, tells)):
+            if op[0] == "flush":
+                w.flush()
+            elif op[0] == "seek":
+                w.seek(op[1], op[2])
+            else:
+                getattr(w, "write_" + op[0])(*_wargs(op, bitarray))
+            if tob(*w.tell()) != t:
+                fails.append(("writer-tell-after-seek-sequence", "op %d %r: tell() differs from the bit-level reference" % (i, op), tob(*w.tell()), t))
+                return fails
+        w.flush()
+    except Exception as e:  # noqa
+        fails.append(("writer-seek-sequence-raises", "a legal write/seek/flush sequence raised", repr(e), "no exception"))
+        return fails
+    data = list(bytearray(f.getvalue()))
+    if data != ref:
+        fails.append(("writer-file-after-seek-sequence",
+                      "after writes, seeks and flushes (also mid-byte, also over written bytes, also with an all-zero partial byte pending) the file "
+                      "must hold every byte that had at least one bit written, as written last", data, ref))
+        return fails
+    # both readers see exactly these bits, and the last write of the sequence reads back where it was written
+    refbits = [(b >> (7 - j)) & 1 for b in ref for j in range(8)]
+    r = bio.BitstreamReader(io.BytesIO(f.getvalue()))
+    d = new_d(data)
+    got = [r.read_bit() for _ in refbits]
+    gd = [dio.read_bit(d) for _ in refbits]
+    if got != refbits or gd != refbits:
+        fails.append(("readers-after-seek-sequence", "both readers must read the written file bit for bit", [got, gd], refbits))
+    last = [i for i, op in enumerate(ops) if op[0] not in ("flush", "seek")]
+    if last and not any(op[0] == "seek" for op in ops[last[-1] + 1:]):  # a later seek may legitimately clobber it
+        i = last[-1]
+        start = tells[i - 1] if i else 0
+        op = ops[i]
+        exp = _expected(op, bitarray)
+        r.seek(*bio.from_bit_offset(start))
+        d = new_d(data)
+        dio.read_nbits(d, start)
+        g1, g2 = _rread(r, op), _dread(dio, d, op)
+        if g1 != exp or g2 != exp or tob(*r.tell()) != tells[i] or tob(*dio.tell(d)) != tells[i]:
+            fails.append(("readback-after-seek-sequence", "the last value written after a seek must read back at its position with both readers",
+                          [repr(g1), repr(g2), tob(*r.tell()), tob(*dio.tell(d))], [repr(exp), repr(exp), tells[i], tells[i]]))
+    return fails
+
+
+# ------------------------------------------------------------------ exhaustive integer sweep (reusable: see expgolomb_sweep)
+def sweep_values(kind, values, block=False, batch=512, limit=4):
+    """write_<kind> / read_<kind> (kind in 'sint', 'uint') for every value, against the closed-form exp-Golomb code:
+    bits in the file, tell(), the exp_golomb length functions, BitstreamReader and the decoder's reader (inside one bounded
+    block spanning the batch when block=True: read_uintb/read_sintb).  Returns [(key, input, description, observed, expected)]."""
+    bio, OutOfRangeError, eg, dio, UEOS_, State, bitarray = I()
+    tob = bio.to_bit_offset
+    lenfn = eg.signed_exp_golomb_length if kind == "sint" else eg.exp_golomb_length
+    fails = []
+
+    def fail(key, v, desc, obs, exp):
+        if len([1 for x in fails if x[0] == key]) < limit:
+            fails.append((key, {"sweep": kind, "value": str(v), "block": block}, desc, obs, exp))
+
+    values = list(values)
+    for b0 in range(0, len(values), batch):
+        chunk = values[b0:b0 + batch]
+        codes = [op_bits((kind, v)) for v in chunk]
+        total = sum(len(c) for c in codes)
+        f = io.BytesIO()
+        w = bio.BitstreamWriter(f)
+        if block:
+            w.bounded_block_begin(total)
+        marks, ok = [], True
+        for v in chunk:
+            try:
+                getattr(w, "write_" + kind)(v)
+            except Exception as e:  # noqa
+                fail("%s-write-raises" % kind, v, "write_%s raised" % kind, repr(e), "no exception")
+                ok = False
+                break
+            marks.append(tob(*w.tell()))
+        if not ok:
+            continue
+        if block and (w.bits_remaining != 0 or w.bounded_block_end() != 0):
+            fail("%s-block-count" % kind, chunk[0], "a block of exactly the closed-form total length must end with 0 bits remaining", w.bits_remaining, 0)
+            continue
+        w.flush()
+        raw = f.getvalue()
+        allbits = [(b >> (7 - j)) & 1 for b in bytearray(raw) for j in range(8)]
+        pos = 0
+        for v, c, m in zip(chunk, codes, marks):
+            if allbits[pos:m] != c or lenfn(v) != len(c):
+                fail("%s-code-differs" % kind, v, "write_%s must emit the closed-form exp-Golomb code and the length function must equal its length" % kind,
+                     {"bits": "".join(map(str, allbits[pos:m])), "length_fn": lenfn(v)}, {"bits": "".join(map(str, c)), "length_fn": len(c)})
+            pos = m
+        r = bio.BitstreamReader(io.BytesIO(raw))
+        d = new_d(list(bytearray(raw)))
+        if block:
+            r.bounded_block_begin(total)
+            d["bits_left"] = total
+        rd = getattr(r, "read_" + kind)
+        dd = getattr(dio, "read_" + kind + ("b" if block else ""))
+        dec_alive = True
+        for v, m in zip(chunk, marks):
+            try:
+                g = rd()
+            except Exception as e:  # noqa
+                g = repr(e)
+            if g != v or tob(*r.tell()) != m:
+                fail("%s-readback-bitstream-reader" % kind, v, "BitstreamReader.read_%s must return the value written, at the writer's position" % kind,
+                     [str(g), tob(*r.tell())], [str(v), m])
+                try:
+                    r.seek(*bio.from_bit_offset(m))
+                except Exception:
+                    break
+            if dec_alive:
+                try:
+                    g = dd(d)
+                except Exception as e:  # noqa
+                    g = repr(e)
+                if g != v or tob(*dio.tell(d)) != m:
+                    fail("%s-readback-decoder-reader" % kind, v, "the decoder's read_%s must return the value written, at the writer's position" % kind,
+                         [str(g), tob(*dio.tell(d))], [str(v), m])
+                    dec_alive = False
+    return fails
+
+
+def sweep_nbits(limit=4):
+    """write_nbits / read_nbits for every width 0..18 at the boundary values, in and out of range, inside and outside a block"""
+    bio, OutOfRangeError, eg, dio, UEOS_, State, bitarray = I()
+    tob = bio.to_bit_offset
+    fails = []
+    for n in range(0, 19):
+        vals = sorted(set(v for v in [0, 1, 2, (1 << n) - 2, (1 << n) - 1, 1 << max(n - 1, 0), (1 << max(n - 1, 0)) - 1, (1 << max(n - 1, 0)) + 1]
+                          if 0 <= v < (1 << n)))
+        for block in (False, True):
+            f = io.BytesIO()
+            w = bio.BitstreamWriter(f)
+            if block:
+                w.bounded_block_begin(n * len(vals))
+            for v in vals:
+                w.write_nbits(n, v)
+            for bad in (-1, 1 << n, (1 << n) + 1):
+                before = (w.tell(), w.bits_remaining)
+                try:
+                    w.write_nbits(n, bad)
+                    res = "accepted"
+                except OutOfRangeError:
+                    res = "OutOfRangeError"
+                except Exception as e:  # noqa
+                    res = type(e).__name__
+                if res != "OutOfRangeError" or (w.tell(), w.bits_remaining) != before:
+                    fails.append(("nbits-out-of-range", {"sweep": "nbits", "n": n, "value": bad, "block": block}, "out-of-range value must raise OutOfRangeError and write nothing", res, "OutOfRangeError"))
+            w.flush()
+            raw = f.getvalue()
+            exp = [int(ch) for v in vals for ch in (format(v, "0%db" % n) if n else "")]
+            allbits = [(b >> (7 - j)) & 1 for b in bytearray(raw) for j in range(8)]
+            r = bio.BitstreamReader(io.BytesIO(raw))
+            d = new_d(list(bytearray(raw)))
+            if block:
+                r.bounded_block_begin(n * len(vals))
+            g1 = [r.read_nbits(n) for _ in vals]
+            g2 = [dio.read_nbits(d, n) for _ in vals]
+            if allbits[:len(exp)] != exp or g1 != vals or g2 != vals or tob(*r.tell()) != len(exp) or tob(*dio.tell(d)) != len(exp):
+                fails.append(("nbits-boundary-roundtrip", {"sweep": "nbits", "n": n, "values": vals, "block": block},
+                              "write_nbits/read_nbits must round trip every boundary value as n big-endian bits", [g1, g2], vals))
+    return fails[:limit * 2]
+
+
+def sweep_value_set(small=(1 << 14) + 2, kmax=200):
+    vals = set(range(-small, small + 1))
+    for k in range(0, kmax + 1):
+        for dlt in range(-2, 3):
+            vals.add((1 << k) + dlt)
+            vals.add(-((1 << k) + dlt))
+    return sorted(vals)
+
+
+def expgolomb_sweep(small=(1 << 14) + 2, kmax=200):
+    """EXHAUSTIVE write->read sweep over every integer in -small..small and +-(2^k-2..2^k+2), k <= kmax: sint and uint
+    outside a block, the non-small part and |v| <= 4200 also inside a block, nbits boundary values for n <= 18.
+    Reuse from another harness:
+        from C20 import expgolomb_sweep
+        for key, inp, desc, obs, exp in expgolomb_sweep(): ctx.violation(key, inp, desc, observed=obs, expected=exp)"""
+    vals = sweep_value_set(small, kmax)
+    inblock = [v for v in vals if abs(v) <= 4200 or abs(v) > small]
+    fails = sweep_values("sint", vals) + sweep_values("uint", [v for v in vals if v >= 0])
+    fails += sweep_values("sint", inblock, block=True) + sweep_values("uint", [v for v in inblock if v >= 0], block=True)
+    fails += sweep_nbits()
+    return fails
+
+
 def _try_bits(r, n):
     out = []
     try:
@@ -1638,6 +1927,21 @@ def replay(ctx, data):
         except Exception as e:  # noqa
             print("raised", repr(e))
             bad = True
+    elif isinstance(inp, dict) and "seek_ops" in inp:
+        fails = seek_write_case(_unj(inp["seek_ops"]))
+        for k, desc, observed, expected in fails:
+            print(" -", k, ":", desc, "| observed", observed, "| expected", expected)
+        bad = bool(fails)
+    elif isinstance(inp, dict) and inp.get("sweep") in ("sint", "uint"):
+        fails = sweep_values(inp["sweep"], [int(inp["value"])], block=bool(inp.get("block")))
+        for k, i2, desc, observed, expected in fails:
+            print(" -", k, ":", desc, "| observed", observed, "| expected", expected)
+        bad = bool(fails)
+    elif isinstance(inp, dict) and inp.get("sweep") == "nbits":
+        fails = [x for x in sweep_nbits(limit=1000) if x[1]["n"] == inp["n"]]
+        for k, i2, desc, observed, expected in fails:
+            print(" -", k, i2, ":", desc, "| observed", observed, "| expected", expected)
+        bad = bool(fails)
     elif isinstance(inp, dict) and ("edge_steps" in inp or "edge_read" in inp):
         if "edge_steps" in inp:
             steps = [tuple(st) if st[0] != "op" else ("op", _unj([st[1]])[0]) for st in inp["edge_steps"]]
